@@ -27,6 +27,7 @@ WRAPS_COMMON = [
     "__cxa_guard_acquire", "__cxa_guard_release", "__cxa_guard_abort",
     "getenv", "fopen", "__assert_fail", "getauxval", "getuid", "geteuid", "getgid", "getegid", "secure_getenv",
     "stat", "lstat", "access", "realpath", "readlink", "getcwd", "open", "open64", "openat", "opendir",
+    "strtok", "localtime", "gmtime", "ctime", "asctime", "setlocale",
     "isalpha", "isalnum", "isdigit", "isspace", "isupper", "islower", "ispunct", "tolower", "toupper",
 ]
 # clang builds: the library's thread_locals go through __emutls_get_address, which the scheduler serves per task
